@@ -6,7 +6,7 @@
    C07/Model.v that the correspondence ties execute at binary64. *)
 From Coq Require Import List Arith ZArith Bool Reals.
 From T4V Require Import Base.Scalar C07.Model C07.ProofsAlgebra C07.ProofsComb C07.ProofsMain
-  C07.ProofsGeom C07.ProofsExample C07.ProofsDomain.
+  C07.ProofsGeom C07.ProofsExample C07.ProofsDomain C07.ProofsRhp.
 Import ListNotations.
 Open Scope R_scope.
 
@@ -329,3 +329,64 @@ Theorem C07_lattice_vector : forall (a1 a2 a3 : rvec) (i j k : Z),
   latticeVector RS [a1; a2] [i; j; k] = vadd (vscale (IZR i) a1) (vscale (IZR j) a2).
 Proof. exact lattice_vector. Qed.
 Print Assumptions C07_lattice_vector.
+
+(* ---------- from the RHP / HEX card to the base vectors ---------- *)
+
+(* A LAT=2 cell "-b" whose surface b is an RHP/HEX card v h r s t (15 entries).
+   rhp_cell_surfaces = MacroBodies.rhp, then forcad.p on each facet, then
+   extract_surfaces under the negative literal: the (plane, side) list that
+   develop_lattice hands to hexLatticeBaseVectors (tie:rhpcell observes it at
+   that call).  If r, s, t are perpendicular to h and v + r, v + s, v + t are the
+   feet of the perpendiculars from the axis to the lines of sides a, b, d of a
+   centrally symmetric hexagon about v, that list has eight entries, lists the
+   sides in the order a, a+3, b, b+3, d, d+3, each plane carries its side and
+   is listed with the sense of the centre: the hypotheses of C07_hex_base_vectors *)
+Theorem C07_rhp_cell_hypotheses :
+  forall (c h r s t : rvec) (w : nat -> rvec) (a b d : nat),
+  h <> (0, 0, 0) -> r <> (0, 0, 0) -> s <> (0, 0, 0) -> t <> (0, 0, 0) ->
+  dot r h = 0 -> dot s h = 0 -> dot t h = 0 ->
+  (forall k, wv w (k + 3) = vsub (vscale 2 c) (wv w k)) ->
+  dot (vsub (wv w a) (vadd c r)) r = 0 /\ dot (vsub (wv w (a + 5)) (vadd c r)) r = 0 ->
+  dot (vsub (wv w b) (vadd c s)) s = 0 /\ dot (vsub (wv w (b + 5)) (vadd c s)) s = 0 ->
+  dot (vsub (wv w d) (vadd c t)) t = 0 /\ dot (vsub (wv w (d + 5)) (vadd c t)) t = 0 ->
+  exists surfs,
+    rhp_cell_surfaces RS (params15 c h r s t) = Ok surfs /\ List.length surfs = 8%nat /\
+    (forall i, (i < 6)%nat -> carries h w (pl surfs i) (side_at [a; opp a; b; opp b; d; opp d] i)) /\
+    (forall i, (i < 6)%nat -> sd surfs i = planeSide RS c (pl surfs i) /\ sd surfs i <> 0%Z) /\
+    snd (pl surfs 6) = vscale (1 / norm h) h /\ snd (pl surfs 7) = vscale (1 / norm h) h /\
+    (forall q, pf (pl surfs 6) q = dot (vsub q (vadd c h)) h / norm h) /\
+    (forall q, pf (pl surfs 7) q = dot (vsub q c) h / norm h).
+Proof. exact rhp_cell_hypotheses. Qed.
+Print Assumptions C07_rhp_cell_hypotheses.
+
+(* ... and therefore, for a strictly convex hexagon drawn in the plane through v
+   perpendicular to h, the base vectors computed from the card are the
+   translations across the sides of r and of s, and h *)
+Theorem C07_rhp15_lattice_vectors :
+  forall (c h r s t : rvec) (w : nat -> rvec) (a b d : nat),
+  In [a; opp a; b; opp b; d; opp d] all_listings ->
+  h <> (0, 0, 0) -> r <> (0, 0, 0) -> s <> (0, 0, 0) -> t <> (0, 0, 0) ->
+  dot r h = 0 -> dot s h = 0 -> dot t h = 0 ->
+  (forall k, wv w (k + 3) = vsub (vscale 2 c) (wv w k)) ->
+  dot (vsub (wv w a) (vadd c r)) r = 0 /\ dot (vsub (wv w (a + 5)) (vadd c r)) r = 0 ->
+  dot (vsub (wv w b) (vadd c s)) s = 0 /\ dot (vsub (wv w (b + 5)) (vadd c s)) s = 0 ->
+  dot (vsub (wv w d) (vadd c t)) t = 0 /\ dot (vsub (wv w (d + 5)) (vadd c t)) t = 0 ->
+  (forall k, dot (vsub (wv w k) c) h = 0) ->
+  ((forall k, 0 < det3 (vsub (wv w (k + 1)) (wv w k)) (vsub (wv w (k + 2)) (wv w (k + 1))) h) \/
+   (forall k, det3 (vsub (wv w (k + 1)) (wv w k)) (vsub (wv w (k + 2)) (wv w (k + 1))) h < 0)) ->
+  hexLatticeBaseVectors_rhp RS (params15 c h r s t) = Ok [across c w a; across c w b; h].
+Proof. exact rhp_lattice_vectors. Qed.
+Print Assumptions C07_rhp15_lattice_vectors.
+
+(* nine entries v h r, r perpendicular to h (the regular prism of the manual):
+   the code completes the card with s, t = r rotated by 60 and 120 degrees about
+   h, and the base vectors are a1 = 2 r, a2 = 2 s, a3 = h — the pitch vectors of
+   the MCNP manual; s is r/2 + (sqrt 3 / 2) (h/|h| x r) *)
+Theorem C07_rhp9_lattice_vectors : forall c h r : rvec,
+  h <> (0, 0, 0) -> r <> (0, 0, 0) -> dot r h = 0 ->
+  hexLatticeBaseVectors_rhp RS (params9 c h r) =
+  Ok [vscale 2 r; vscale 2 (rotate RS r (unit_of h) (PI / 3)); h] /\
+  rotate RS r (unit_of h) (PI / 3) =
+  vadd (vscale (1 / 2) r) (vscale (sqrt 3 / 2) (cross (unit_of h) r)).
+Proof. exact rhp9_lattice_vectors. Qed.
+Print Assumptions C07_rhp9_lattice_vectors.
